@@ -406,6 +406,7 @@ func (env *environment) run() {
 			})
 			env.mgrAlive = false
 			env.observe()
+			slot := env.j.add("newmanager", "Nm false", "NEWMANAGER (pending)")
 			m, err := synchronization.NewManager(nil)
 			if err != nil {
 				panic(err)
@@ -416,7 +417,7 @@ func (env *environment) run() {
 			_, states, lerr := m.List(ctx, &selection.Selection{All: true}, 0)
 			cancel()
 			loaded := lerr == nil && len(states) == 1
-			env.j.add("newmanager", "Nm "+boolName(loaded), fmt.Sprintf("NEWMANAGER loaded=%v", loaded))
+			env.j.set(slot, "Nm "+boolName(loaded), fmt.Sprintf("NEWMANAGER loaded=%v", loaded))
 			if loaded {
 				// a loaded, unpaused session must start connecting: give it time
 				s := &synchronization.Session{}
